@@ -245,7 +245,7 @@ def gen(rnd, tls, held=False):
     expected = []     # (availability tick of the message's last byte, event)
     for b in range(rnd.choice([1, 2, 3])):
         t += rnd.choice([1, 500, 61 * 1024, 3 * 60 * 1024])
-        kind = rnd.choice(["many-small", "around-16k", "around-64k", "spanning", "mixed", "huge", "empty-last", "empty-last"])
+        kind = rnd.choice(["many-small", "around-16k", "around-64k", "spanning", "mixed", "huge", "empty-last", "empty-last", "unicode", "unicode"])
         frames = []
         raw = None
         if kind == "many-small":
@@ -272,6 +272,12 @@ def gen(rnd, tls, held=False):
                 op = 1 if which == "cont-text" else 2
                 raw = E(op, b"streamed ", fin=0) + E(0, b"message", fin=0) + E(0, b"", fin=1)
                 frames = [(op, b"streamed message")]
+        elif kind == "unicode":
+            # text of 2-, 3- and 4-byte characters larger than a TLS record / the receive buffer: record and read boundaries fall
+            # inside characters
+            unit = rnd.choice(["\u20ac", "\u00e9\u20ac", "\U0001f600x", "\u65e5\u672c\u8a9e"]).encode("utf-8")
+            n = rnd.choice([20000, 70000, 140000])
+            frames = [(1, b"x" * rnd.choice([0, 1, 2]) + unit * (n // len(unit))), (2, b"bin"), (1, unit * 3), (9, b"u")]
         elif kind == "spanning":
             frames = [(1, b"a" * 20000), (2, b"b" * 20000), (1, b"c" * 30000), (9, b"p")]
         else:
